@@ -1,4 +1,775 @@
 /- helper lemmas: invariants of the queue LTS -/
 import TinyHttpModel.Lts.Queue
 namespace TH.Lts.Queue
+
+/-! ### lifting step invariants to runs -/
+
+theorem run_inv {Inv : State → Prop}
+    (hstep : ∀ s l s', Inv s → step s l = some s' → Inv s') :
+    ∀ ls s s', Inv s → run s ls = some s' → Inv s' := by
+  intro ls
+  induction ls with
+  | nil =>
+    intro s s' hi h
+    simp only [run, Option.some.injEq] at h
+    subst h; exact hi
+  | cons l ls ih =>
+    intro s s' hi h
+    simp only [run] at h
+    split at h
+    · next s1 h1 => exact ih _ _ (hstep _ _ _ hi h1) h
+    · cases h
+
+theorem reachable_inv {Inv : State → Prop} (h0 : Inv {})
+    (hstep : ∀ s l s', Inv s → step s l = some s' → Inv s') :
+    ∀ s, Reachable s → Inv s := by
+  intro s ⟨ls, h⟩
+  exact run_inv hstep ls _ _ h0 h
+
+theorem runZL_inv {Inv : State → Prop}
+    (hstep : ∀ s l s', Inv s → stepZL s l = some s' → Inv s') :
+    ∀ ls s s', Inv s → runZL s ls = some s' → Inv s' := by
+  intro ls
+  induction ls with
+  | nil =>
+    intro s s' hi h
+    simp only [runZL, Option.some.injEq] at h
+    subst h; exact hi
+  | cons l ls ih =>
+    intro s s' hi h
+    simp only [runZL] at h
+    split at h
+    · next s1 h1 => exact ih _ _ (hstep _ _ _ hi h1) h
+    · cases h
+
+/-! ### `setPhase` at the level of the phase list -/
+
+def setP (ph : List Phase) (t : Nat) (p : Phase) : List Phase :=
+  (ph ++ List.replicate (t + 1 - ph.length) Phase.idle).set t p
+
+@[simp] theorem setPhase_phases (s : State) (t : Nat) (p : Phase) :
+    (setPhase s t p).phases = setP s.phases t p := rfl
+@[simp] theorem setPhase_queue (s : State) (t : Nat) (p : Phase) :
+    (setPhase s t p).queue = s.queue := rfl
+@[simp] theorem setPhase_now (s : State) (t : Nat) (p : Phase) :
+    (setPhase s t p).now = s.now := rfl
+@[simp] theorem setPhase_pushed (s : State) (t : Nat) (p : Phase) :
+    (setPhase s t p).pushed = s.pushed := rfl
+@[simp] theorem setPhase_taken (s : State) (t : Nat) (p : Phase) :
+    (setPhase s t p).taken = s.taken := rfl
+@[simp] theorem setPhase_tokensPushed (s : State) (t : Nat) (p : Phase) :
+    (setPhase s t p).tokensPushed = s.tokensPushed := rfl
+@[simp] theorem setPhase_tokensTaken (s : State) (t : Nat) (p : Phase) :
+    (setPhase s t p).tokensTaken = s.tokensTaken := rfl
+@[simp] theorem setPhase_log (s : State) (t : Nat) (p : Phase) :
+    (setPhase s t p).log = s.log := rfl
+
+theorem getD_setP_self (ph : List Phase) (t : Nat) (p : Phase) :
+    (setP ph t p).getD t Phase.idle = p := by
+  have hlen : t < (ph ++ List.replicate (t + 1 - ph.length) Phase.idle).length := by
+    simp only [List.length_append, List.length_replicate]; omega
+  simp [setP, List.getD_eq_getElem?_getD, List.getElem?_set_self hlen]
+
+theorem getD_setP_ne (ph : List Phase) (t u : Nat) (p : Phase) (h : u ≠ t) :
+    (setP ph t p).getD u Phase.idle = ph.getD u Phase.idle := by
+  have h' : t ≠ u := fun e => h e.symm
+  simp only [setP, List.getD_eq_getElem?_getD, List.getElem?_set_ne h']
+  by_cases hu : u < ph.length
+  · rw [List.getElem?_append_left hu]
+  · have hu' : ph.length ≤ u := Nat.le_of_not_lt hu
+    rw [List.getElem?_append_right hu', List.getElem?_eq_none_iff.mpr hu']
+    simp only [List.getElem?_replicate, Option.getD_none]
+    split <;> rfl
+
+theorem mem_of_getD {ph : List Phase} {t : Nat} {p : Phase}
+    (h : ph.getD t Phase.idle = p) (hp : p ≠ Phase.idle) : p ∈ ph := by
+  by_cases ht : t < ph.length
+  · rw [List.getD_eq_getElem?_getD, List.getElem?_eq_getElem ht] at h
+    simp only [Option.getD_some] at h
+    subst h; exact List.getElem_mem ht
+  · rw [List.getD_eq_getElem?_getD, List.getElem?_eq_none_iff.mpr (Nat.le_of_not_lt ht)] at h
+    simp only [Option.getD_none] at h
+    exact absurd h.symm hp
+
+/-- counting the phases that satisfy `f` after a `setPhase` (additive form, no subtraction). -/
+theorem filter_setP_length (f : Phase → Bool) (hf : f Phase.idle = false) (p : Phase) :
+    ∀ (ph : List Phase) (t : Nat),
+      ((setP ph t p).filter f).length + (if f (ph.getD t Phase.idle) then 1 else 0)
+        = (ph.filter f).length + (if f p then 1 else 0) := by
+  intro ph
+  induction ph with
+  | nil =>
+    intro t
+    induction t with
+    | zero =>
+      simp only [setP, List.filter_cons, List.length_nil, Nat.sub_zero, List.replicate_succ,
+        List.replicate_zero, List.nil_append, List.set_cons_zero, List.getD_nil, hf, List.filter_nil]
+      split <;> simp
+    | succ n ih =>
+      have e : setP [] (n + 1) p = Phase.idle :: setP [] n p := by
+        simp [setP, List.replicate_succ]
+      rw [e, List.filter_cons]
+      simp only [hf, Bool.false_eq_true, if_false]
+      simpa [hf] using ih
+  | cons a l ih =>
+    intro t
+    cases t with
+    | zero =>
+      simp only [setP, List.length_cons, Nat.zero_add, Nat.sub_eq_zero_of_le (Nat.succ_le_succ (Nat.zero_le _)),
+        List.replicate_zero, List.append_nil, List.set_cons_zero, List.getD_cons_zero, List.filter_cons]
+      split <;> split <;> simp <;> omega
+    | succ n =>
+      have e : setP (a :: l) (n + 1) p = a :: setP l n p := by
+        simp [setP, Nat.add_sub_add_right]
+      rw [e]
+      simp only [List.filter_cons, List.getD_cons_succ]
+      have := ih n
+      split <;> (try simp only [List.length_cons]) <;> omega
+
+theorem any_false_filter_length {f : Phase → Bool} {ph : List Phase} (h : ph.any f = false) :
+    (ph.filter f).length = 0 := by
+  rw [List.length_eq_zero_iff, List.filter_eq_nil_iff]
+  intro a ha hfa
+  rw [List.any_eq_false] at h
+  exact h a ha hfa
+
+/-! ### effect of a step on the history / queue fields -/
+
+@[simp] theorem applyNotify_queue (s : State) (w : Option Nat) :
+    (applyNotify s w).queue = s.queue := by
+  cases w with
+  | none => rfl
+  | some t => simp only [applyNotify]; split <;> rfl
+@[simp] theorem applyNotify_now (s : State) (w : Option Nat) :
+    (applyNotify s w).now = s.now := by
+  cases w with
+  | none => rfl
+  | some t => simp only [applyNotify]; split <;> rfl
+@[simp] theorem applyNotify_pushed (s : State) (w : Option Nat) :
+    (applyNotify s w).pushed = s.pushed := by
+  cases w with
+  | none => rfl
+  | some t => simp only [applyNotify]; split <;> rfl
+@[simp] theorem applyNotify_taken (s : State) (w : Option Nat) :
+    (applyNotify s w).taken = s.taken := by
+  cases w with
+  | none => rfl
+  | some t => simp only [applyNotify]; split <;> rfl
+@[simp] theorem applyNotify_tokensPushed (s : State) (w : Option Nat) :
+    (applyNotify s w).tokensPushed = s.tokensPushed := by
+  cases w with
+  | none => rfl
+  | some t => simp only [applyNotify]; split <;> rfl
+@[simp] theorem applyNotify_tokensTaken (s : State) (w : Option Nat) :
+    (applyNotify s w).tokensTaken = s.tokensTaken := by
+  cases w with
+  | none => rfl
+  | some t => simp only [applyNotify]; split <;> rfl
+@[simp] theorem applyNotify_log (s : State) (w : Option Nat) :
+    (applyNotify s w).log = s.log := by
+  cases w with
+  | none => rfl
+  | some t => simp only [applyNotify]; split <;> rfl
+
+/-- what one step can do to the queue and to the history fields (phases and time ignored). -/
+inductive DataStep (s s' : State) : Prop where
+  | same : s'.queue = s.queue → s'.pushed = s.pushed → s'.taken = s.taken →
+      s'.tokensPushed = s.tokensPushed → s'.tokensTaken = s.tokensTaken → s'.log = s.log →
+      DataStep s s'
+  | push (v : Nat) : s'.queue = s.queue ++ [Item.elem v] → s'.pushed = s.pushed ++ [v] →
+      s'.taken = s.taken → s'.tokensPushed = s.tokensPushed → s'.tokensTaken = s.tokensTaken →
+      s'.log = s.log → DataStep s s'
+  | unblock : s'.queue = s.queue ++ [Item.token] → s'.pushed = s.pushed →
+      s'.taken = s.taken → s'.tokensPushed = s.tokensPushed + 1 → s'.tokensTaken = s.tokensTaken →
+      s'.log = s.log → DataStep s s'
+  | takeElem (v : Nat) (rest : List Item) (t : Nat) (c : Call) (cs : Nat) :
+      s.queue = Item.elem v :: rest → s'.queue = rest → s'.pushed = s.pushed →
+      s'.taken = s.taken ++ [v] → s'.tokensPushed = s.tokensPushed →
+      s'.tokensTaken = s.tokensTaken → s'.log = s.log ++ [⟨t, c, cs, s.now, .value v⟩] →
+      DataStep s s'
+  | takeToken (rest : List Item) (t : Nat) (c : Call) (cs : Nat) :
+      s.queue = Item.token :: rest → s'.queue = rest → s'.pushed = s.pushed →
+      s'.taken = s.taken → s'.tokensPushed = s.tokensPushed →
+      s'.tokensTaken = s.tokensTaken + 1 → s'.log = s.log ++ [⟨t, c, cs, s.now, .byToken⟩] →
+      DataStep s s'
+  | retEmpty (t : Nat) (c : Call) (cs : Nat) : c ≠ Call.pop →
+      s.queue = [] → s'.queue = [] → s'.pushed = s.pushed →
+      s'.taken = s.taken → s'.tokensPushed = s.tokensPushed →
+      s'.tokensTaken = s.tokensTaken → s'.log = s.log ++ [⟨t, c, cs, s.now, .empty⟩] →
+      DataStep s s'
+
+theorem lookReady_data (s : State) (t : Nat) (c : Call) (cs dur : Nat) (e : Bool) :
+    DataStep s (lookReady s t c cs dur e) := by
+  unfold lookReady
+  split
+  · next v rest hq => exact .takeElem v rest t c cs hq rfl rfl rfl rfl rfl rfl
+  · next rest hq => exact .takeToken rest t c cs hq rfl rfl rfl rfl rfl rfl
+  · next hq =>
+    split
+    · exact .retEmpty t _ cs (by simp) hq hq rfl rfl rfl rfl rfl
+    · exact .same rfl rfl rfl rfl rfl rfl
+    · split
+      · exact .retEmpty t _ cs (by simp) hq hq rfl rfl rfl rfl rfl
+      · exact .same rfl rfl rfl rfl rfl rfl
+
+theorem step_data {s s' : State} {l : Label} (h : step s l = some s') : DataStep s s' := by
+  cases l with
+  | call t c =>
+    simp only [step] at h
+    split at h
+    · simp only [Option.some.injEq] at h; subst h; exact .same rfl rfl rfl rfl rfl rfl
+    · cases h
+  | look t =>
+    simp only [step] at h
+    split at h
+    · simp only [Option.some.injEq] at h; subst h; exact lookReady_data ..
+    · simp only [Option.some.injEq] at h; subst h; exact lookReady_data ..
+    · cases h
+  | push v woke =>
+    simp only [step] at h
+    split at h
+    · simp only [Option.some.injEq] at h; subst h
+      exact .push v (by simp) (by simp) (by simp) (by simp) (by simp) (by simp)
+    · cases h
+  | unblock woke =>
+    simp only [step] at h
+    split at h
+    · simp only [Option.some.injEq] at h; subst h
+      exact .unblock (by simp) (by simp) (by simp) (by simp) (by simp) (by simp)
+    · cases h
+  | wake t r =>
+    simp only [step] at h
+    split at h
+    · split at h
+      · simp only [Option.some.injEq] at h; subst h; exact .same rfl rfl rfl rfl rfl rfl
+      · split at h
+        · split at h
+          · simp only [Option.some.injEq] at h; subst h; exact .same rfl rfl rfl rfl rfl rfl
+          · cases h
+        · cases h
+    · cases h
+  | tick d =>
+    simp only [step, Option.some.injEq] at h; subst h; exact .same rfl rfl rfl rfl rfl rfl
+
+theorem elems_append_elem (q : List Item) (v : Nat) : elems (q ++ [Item.elem v]) = elems q ++ [v] := by
+  induction q with
+  | nil => rfl
+  | cons a q ih => cases a <;> simp [elems, ih]
+
+theorem elems_append_token (q : List Item) : elems (q ++ [Item.token]) = elems q := by
+  induction q with
+  | nil => rfl
+  | cons a q ih => cases a <;> simp [elems, ih]
+
+theorem tokens_append_elem (q : List Item) (v : Nat) : tokens (q ++ [Item.elem v]) = tokens q := by
+  induction q with
+  | nil => rfl
+  | cons a q ih => cases a <;> simp [tokens, ih]
+
+theorem tokens_append_token (q : List Item) : tokens (q ++ [Item.token]) = tokens q + 1 := by
+  induction q with
+  | nil => rfl
+  | cons a q ih => cases a <;> simp [tokens, ih]
+
+/-- C07 / C17: exactly once, in order. -/
+theorem exactly_once_inv (s : State) (h : Reachable s) : s.taken ++ elems s.queue = s.pushed := by
+  refine reachable_inv (Inv := fun s => s.taken ++ elems s.queue = s.pushed) rfl ?_ s h
+  intro s l s' hi hs
+  cases step_data hs with
+  | same hq hp ht _ _ _ => rw [hq, hp, ht]; exact hi
+  | push v hq hp ht _ _ _ => rw [hq, hp, ht, elems_append_elem, ← List.append_assoc, hi]
+  | unblock hq hp ht _ _ _ => rw [hq, hp, ht, elems_append_token]; exact hi
+  | takeElem v rest t c cs hq0 hq hp ht _ _ _ =>
+    rw [hq, hp, ht, ← hi, hq0]; simp [elems]
+  | takeToken rest t c cs hq0 hq hp ht _ _ _ =>
+    rw [hq, hp, ht, ← hi, hq0]; simp [elems]
+  | retEmpty t c cs _ hq0 hq hp ht _ _ _ => rw [hq, hp, ht, ← hi, hq0]
+
+theorem log_values_inv (s : State) (h : Reachable s) :
+    (s.log.filterMap (fun r => match r.res with | .value v => some v | _ => none)) = s.taken := by
+  refine reachable_inv
+    (Inv := fun s => (s.log.filterMap (fun r => match r.res with | .value v => some v | _ => none)) = s.taken)
+    rfl ?_ s h
+  intro s l s' hi hs
+  cases step_data hs with
+  | same _ _ ht _ _ hl => rw [hl, ht]; exact hi
+  | push v _ _ ht _ _ hl => rw [hl, ht]; exact hi
+  | unblock _ _ ht _ _ hl => rw [hl, ht]; exact hi
+  | takeElem v rest t c cs _ _ _ ht _ _ hl => rw [hl, ht, List.filterMap_append, hi]; rfl
+  | takeToken rest t c cs _ _ _ ht _ _ hl => rw [hl, ht, List.filterMap_append, hi]; simp
+  | retEmpty t c cs _ _ _ _ ht _ _ hl => rw [hl, ht, List.filterMap_append, hi]; simp
+
+theorem token_conservation_inv (s : State) (h : Reachable s) :
+    s.tokensPushed = s.tokensTaken + tokens s.queue ∧
+    (s.log.filter (fun r => r.res == .byToken)).length = s.tokensTaken := by
+  refine reachable_inv
+    (Inv := fun s => s.tokensPushed = s.tokensTaken + tokens s.queue ∧
+      (s.log.filter (fun r => r.res == .byToken)).length = s.tokensTaken)
+    ⟨rfl, rfl⟩ ?_ s h
+  intro s l s' ⟨h1, h2⟩ hs
+  cases step_data hs with
+  | same hq _ _ hp ht hl => rw [hq, hp, ht, hl]; exact ⟨h1, h2⟩
+  | push v hq _ _ hp ht hl => rw [hq, hp, ht, hl, tokens_append_elem]; exact ⟨h1, h2⟩
+  | unblock hq _ _ hp ht hl => rw [hq, hp, ht, hl, tokens_append_token]; exact ⟨by omega, h2⟩
+  | takeElem v rest t c cs hq0 hq _ _ hp ht hl =>
+    rw [hq0] at h1
+    rw [hq, hp, ht, hl, List.filter_append, List.length_append, h2]
+    simp only [tokens] at h1
+    exact ⟨h1, by simp⟩
+  | takeToken rest t c cs hq0 hq _ _ hp ht hl =>
+    rw [hq0] at h1
+    rw [hq, hp, ht, hl, List.filter_append, List.length_append, h2]
+    simp only [tokens] at h1
+    exact ⟨by omega, by simp⟩
+  | retEmpty t c cs _ hq0 hq _ _ hp ht hl =>
+    rw [hq0] at h1
+    rw [hq, hp, ht, hl, List.filter_append, List.length_append, h2]
+    exact ⟨h1, by simp⟩
+
+theorem recv_empty_inv (s : State) (h : Reachable s) :
+    ∀ r ∈ s.log, r.call = .pop → r.res ≠ .empty := by
+  refine reachable_inv (Inv := fun s => ∀ r ∈ s.log, r.call = .pop → r.res ≠ .empty)
+    (by intro r hr; cases hr) ?_ s h
+  intro s l s' hi hs
+  cases step_data hs with
+  | same _ _ _ _ _ hl => rw [hl]; exact hi
+  | push v _ _ _ _ _ hl => rw [hl]; exact hi
+  | unblock _ _ _ _ _ hl => rw [hl]; exact hi
+  | takeElem v rest t c cs _ _ _ _ _ _ hl =>
+    rw [hl]; intro r hr
+    rcases List.mem_append.mp hr with hr | hr
+    · exact hi r hr
+    · simp only [List.mem_singleton] at hr; subst hr; intro _ h; cases h
+  | takeToken rest t c cs _ _ _ _ _ _ hl =>
+    rw [hl]; intro r hr
+    rcases List.mem_append.mp hr with hr | hr
+    · exact hi r hr
+    · simp only [List.mem_singleton] at hr; subst hr; intro _ h; cases h
+  | retEmpty t c cs hc _ _ _ _ _ _ hl =>
+    rw [hl]; intro r hr
+    rcases List.mem_append.mp hr with hr | hr
+    · exact hi r hr
+    · simp only [List.mem_singleton] at hr; subst hr; intro h; exact absurd h hc
+
+/-! ### no lost wake-up -/
+
+theorem countP_setPhase (f : Phase → Bool) (hf : f Phase.idle = false) (s : State) (t : Nat)
+    (p : Phase) :
+    countP (setPhase s t p) f + (if f (phaseOf s t) then 1 else 0)
+      = countP s f + (if f p then 1 else 0) :=
+  filter_setP_length f hf p s.phases t
+
+theorem countP_congr {s s' : State} (h : s'.phases = s.phases) (f : Phase → Bool) :
+    countP s' f = countP s f := by
+  simp only [countP, h]
+
+theorem phaseOf_congr {s s' : State} (h : s'.phases = s.phases) (t : Nat) :
+    phaseOf s' t = phaseOf s t := by
+  simp only [phaseOf, h]
+
+theorem lookReady_shape (s : State) (t : Nat) (c : Call) (cs dur : Nat) (e : Bool) :
+    (s.queue ≠ [] ∧ (lookReady s t c cs dur e).queue.length + 1 = s.queue.length ∧
+      (lookReady s t c cs dur e).phases = (setPhase s t .idle).phases) ∨
+    (s.queue = [] ∧ (lookReady s t c cs dur e).queue = [] ∧
+      ∃ p, (lookReady s t c cs dur e).phases = (setPhase s t p).phases ∧ isRunnable p = false) := by
+  unfold lookReady
+  split
+  · next v rest hq => left; simp [hq]
+  · next rest hq => left; simp [hq]
+  · next hq =>
+    right
+    refine ⟨hq, ?_⟩
+    split
+    · exact ⟨hq, _, rfl, rfl⟩
+    · exact ⟨hq, _, rfl, rfl⟩
+    · split
+      · exact ⟨hq, _, rfl, rfl⟩
+      · exact ⟨hq, _, rfl, rfl⟩
+
+def NoLost (s : State) : Prop :=
+  0 < countP s isWaiting → s.queue.length ≤ countP s isRunnable
+
+theorem noLost_look {s : State} {t : Nat} {c : Call} {cs dur : Nat} {e : Bool}
+    (hi : NoLost s) (hr : isRunnable (phaseOf s t) = true) :
+    NoLost (lookReady s t c cs dur e) := by
+  have hw : isWaiting (phaseOf s t) = false := by
+    cases hp : phaseOf s t <;> simp_all [isRunnable, isWaiting]
+  unfold NoLost at *
+  rcases lookReady_shape s t c cs dur e with ⟨_, hq, hph⟩ | ⟨_, hq, p, hph, hp⟩
+  · have hW := countP_setPhase isWaiting rfl s t .idle
+    have hR := countP_setPhase isRunnable rfl s t .idle
+    rw [countP_congr hph, countP_congr hph]
+    rw [hw] at hW; rw [hr] at hR
+    simp only [isWaiting, isRunnable, if_true, Bool.false_eq_true, if_false] at hW hR
+    omega
+  · intro _; rw [hq]; exact Nat.zero_le _
+
+theorem noLost_to_runnable {s : State} {t : Nat} (p : Phase) (hi : NoLost s)
+    (hrp : isRunnable p = true) (hold : isRunnable (phaseOf s t) = false) :
+    NoLost (setPhase s t p) := by
+  have hwp : isWaiting p = false := by cases p <;> simp_all [isRunnable, isWaiting]
+  unfold NoLost at *
+  have hW := countP_setPhase isWaiting rfl s t p
+  have hR := countP_setPhase isRunnable rfl s t p
+  rw [hwp] at hW; rw [hrp, hold] at hR
+  simp only [if_true, Bool.false_eq_true, if_false] at hW hR
+  simp only [setPhase_queue]
+  split at hW <;> omega
+
+theorem noLost_notify {s : State} {w : Option Nat} {q : List Item} {pu : List Nat} {tp : Nat}
+    (hi : NoLost s) (hn : notifyOk s w = true) (hq : q.length = s.queue.length + 1) :
+    NoLost (applyNotify { s with queue := q, pushed := pu, tokensPushed := tp } w) := by
+  unfold NoLost at *
+  cases w with
+  | none =>
+    simp only [notifyOk, Bool.not_eq_true'] at hn
+    have h0 : countP s isWaiting = 0 := any_false_filter_length hn
+    intro hpos
+    simp only [applyNotify] at hpos
+    have : countP { s with queue := q, pushed := pu, tokensPushed := tp } isWaiting
+        = countP s isWaiting := rfl
+    omega
+  | some t =>
+    simp only [notifyOk] at hn
+    simp only [applyNotify]
+    split
+    · next c cs dur start dl heq =>
+      have heq' : phaseOf s t = .waiting c cs dur start dl := heq
+      have hW := countP_setPhase isWaiting rfl s t (.woken c cs dur start false)
+      have hR := countP_setPhase isRunnable rfl s t (.woken c cs dur start false)
+      rw [heq'] at hW hR
+      simp only [isWaiting, isRunnable, if_true, Bool.false_eq_true, if_false] at hW hR
+      have e1 : countP (setPhase { s with queue := q, pushed := pu, tokensPushed := tp } t
+          (.woken c cs dur start false)) isWaiting
+          = countP (setPhase s t (.woken c cs dur start false)) isWaiting := rfl
+      have e2 : countP (setPhase { s with queue := q, pushed := pu, tokensPushed := tp } t
+          (.woken c cs dur start false)) isRunnable
+          = countP (setPhase s t (.woken c cs dur start false)) isRunnable := rfl
+      rw [e1, e2]
+      simp only [setPhase_queue]
+      omega
+    · next hne =>
+      exfalso
+      cases hp : phaseOf s t with
+      | waiting c cs dur start dl => exact hne c cs dur start dl hp
+      | idle => simp [hp, isWaiting] at hn
+      | ready => simp [hp, isWaiting] at hn
+      | woken => simp [hp, isWaiting] at hn
+
+theorem noLost_step (s : State) (l : Label) (s' : State) (hi : NoLost s)
+    (h : step s l = some s') : NoLost s' := by
+  cases l with
+  | call t c =>
+    simp only [step] at h
+    split at h
+    · next hp =>
+      simp only [Option.some.injEq] at h; subst h
+      exact noLost_to_runnable _ hi rfl (by rw [hp]; rfl)
+    · cases h
+  | look t =>
+    simp only [step] at h
+    split at h
+    · next hp =>
+      simp only [Option.some.injEq] at h; subst h
+      exact noLost_look hi (by rw [hp]; rfl)
+    · next hp =>
+      simp only [Option.some.injEq] at h; subst h
+      exact noLost_look hi (by rw [hp]; rfl)
+    · cases h
+  | push v woke =>
+    simp only [step] at h
+    split at h
+    · next hn =>
+      simp only [Option.some.injEq] at h; subst h
+      exact noLost_notify (tp := s.tokensPushed) hi hn (by simp)
+    · cases h
+  | unblock woke =>
+    simp only [step] at h
+    split at h
+    · next hn =>
+      simp only [Option.some.injEq] at h; subst h
+      exact noLost_notify (pu := s.pushed) hi hn (by simp)
+    · cases h
+  | wake t r =>
+    have key : ∀ c cs dur start dl b, phaseOf s t = .waiting c cs dur start dl →
+        NoLost (setPhase s t (.woken c cs dur start b)) := by
+      intro c cs dur start dl b hp
+      exact noLost_to_runnable _ hi rfl (by rw [hp]; rfl)
+    simp only [step] at h
+    split at h
+    · next hp =>
+      split at h
+      · simp only [Option.some.injEq] at h; subst h; exact key _ _ _ _ _ _ hp
+      · split at h
+        · split at h
+          · simp only [Option.some.injEq] at h; subst h; exact key _ _ _ _ _ _ hp
+          · cases h
+        · cases h
+    · cases h
+  | tick d =>
+    simp only [step, Option.some.injEq] at h; subst h; exact hi
+
+theorem no_lost_wakeup_inv (s : State) (h : Reachable s) : NoLost s := by
+  refine reachable_inv (Inv := NoLost) ?_ noLost_step s h
+  intro h; simp [countP] at h
+
+/-! ### `recv_timeout` bounds in zero-latency runs -/
+
+theorem stepZL_step {s s' : State} {l : Label} (h : stepZL s l = some s') :
+    step s l = some s' ∧ ∀ d, l = .tick d → tickOk s d = true := by
+  cases l with
+  | tick d =>
+    simp only [stepZL] at h
+    split at h
+    · next hk => exact ⟨h, fun d' hd => by cases hd; exact hk⟩
+    · cases h
+  | wake t r => cases r <;> exact ⟨h, fun d hd => by cases hd⟩
+  | call t c => exact ⟨h, fun d hd => by cases hd⟩
+  | look t => exact ⟨h, fun d hd => by cases hd⟩
+  | push v w => exact ⟨h, fun d hd => by cases hd⟩
+  | unblock w => exact ⟨h, fun d hd => by cases hd⟩
+
+theorem tickOk_spec {s : State} {d : Nat} (h : tickOk s d = true) (u : Nat) :
+    isRunnable (phaseOf s u) = false ∧
+      ∀ dl, deadlineOf (phaseOf s u) = some dl → s.now + d ≤ dl := by
+  by_cases hid : phaseOf s u = Phase.idle
+  · rw [hid]; exact ⟨rfl, fun dl hdl => by cases hdl⟩
+  · have hmem : phaseOf s u ∈ s.phases := mem_of_getD (t := u) rfl hid
+    simp only [tickOk, Bool.and_eq_true, Bool.not_eq_true', List.any_eq_false,
+      List.all_eq_true] at h
+    refine ⟨?_, ?_⟩
+    · cases hr : isRunnable (phaseOf s u) with
+      | false => rfl
+      | true => exact absurd hr (h.1 _ hmem)
+    · intro dl hdl
+      have := h.2 _ hmem
+      rw [hdl] at this
+      simpa using this
+
+/-- the bound claimed for a completed call -/
+def RecOk (r : Record) : Prop :=
+  ∀ T, r.call = .popTimeout T → r.res = .empty → slackNs ≤ T →
+    T - slackNs < r.retTime - r.callStart ∧ r.retTime - r.callStart < 2 * T
+
+/-- per-thread facts about timed calls in zero-latency runs -/
+def PhOk (now : Nat) : Phase → Prop
+  | .ready (.popTimeout T) cs dur e => e = false ∧ dur = T ∧ cs = now
+  | .waiting (.popTimeout T) cs dur start dl =>
+      dl = some (start + T) ∧ cs ≤ start ∧ start ≤ now ∧ now ≤ start + T ∧
+        dur + (start - cs) = T ∧ (slackNs ≤ T → slackNs ≤ dur)
+  | .woken (.popTimeout T) cs dur start to =>
+      cs ≤ start ∧ start ≤ now ∧ now ≤ start + T ∧
+        dur + (start - cs) = T ∧ (slackNs ≤ T → slackNs ≤ dur) ∧ (to = true → now = start + T)
+  | _ => True
+
+structure ZInv (s : State) : Prop where
+  ph : ∀ u, PhOk s.now (phaseOf s u)
+  log : ∀ r ∈ s.log, RecOk r
+
+/-- what `lookReady` needs to know about its arguments -/
+def LookPre (now : Nat) : Call → Nat → Nat → Bool → Prop
+  | .popTimeout T, cs, dur, e =>
+      cs ≤ now ∧ (e = false → dur + (now - cs) = T ∧ (slackNs ≤ T → slackNs ≤ dur)) ∧
+        (e = true → slackNs ≤ T → T - slackNs < now - cs ∧ now - cs < 2 * T)
+  | _, _, _, _ => True
+
+theorem zinv_update {s s' : State} {t : Nat} {p : Phase} (hi : ZInv s)
+    (hph : s'.phases = (setPhase s t p).phases) (hnow : s'.now = s.now)
+    (hp : PhOk s.now p) (hlog : ∀ r ∈ s'.log, RecOk r) : ZInv s' := by
+  refine ⟨?_, hlog⟩
+  intro u
+  rw [hnow, phaseOf_congr hph u]
+  by_cases hu : u = t
+  · subst hu
+    have : phaseOf (setPhase s u p) u = p := getD_setP_self s.phases u p
+    rw [this]; exact hp
+  · have : phaseOf (setPhase s t p) u = phaseOf s u := getD_setP_ne s.phases t u p hu
+    rw [this]; exact hi.ph u
+
+theorem log_snoc {l : List Record} {r : Record} (hl : ∀ x ∈ l, RecOk x) (hr : RecOk r) :
+    ∀ x ∈ l ++ [r], RecOk x := by
+  intro x hx
+  rcases List.mem_append.mp hx with hx | hx
+  · exact hl x hx
+  · simp only [List.mem_singleton] at hx; subst hx; exact hr
+
+theorem zinv_lookReady {s : State} {t : Nat} {c : Call} {cs dur : Nat} {e : Bool}
+    (hi : ZInv s) (hpre : LookPre s.now c cs dur e) : ZInv (lookReady s t c cs dur e) := by
+  unfold lookReady
+  split
+  · refine zinv_update (p := .idle) hi rfl rfl trivial (log_snoc hi.log ?_)
+    intro T _ hres; cases hres
+  · refine zinv_update (p := .idle) hi rfl rfl trivial (log_snoc hi.log ?_)
+    intro T _ hres; cases hres
+  · split
+    · refine zinv_update (p := .idle) hi rfl rfl trivial (log_snoc hi.log ?_)
+      intro T hc; cases hc
+    · exact zinv_update hi rfl rfl trivial hi.log
+    · next T =>
+      simp only [LookPre] at hpre
+      split
+      · next he =>
+        refine zinv_update (p := .idle) hi rfl rfl trivial (log_snoc hi.log ?_)
+        intro T' hc _ hT
+        simp only [Call.popTimeout.injEq] at hc
+        subst hc
+        exact hpre.2.2 he hT
+      · next he =>
+        have he' : e = false := by cases e <;> simp_all
+        have := hpre.2.1 he'
+        refine zinv_update hi rfl rfl ?_ hi.log
+        exact ⟨rfl, hpre.1, Nat.le_refl _, by omega, this.1, this.2⟩
+
+theorem zinv_to_woken {s : State} {t : Nat} {c : Call} {cs dur start : Nat} {dl : Option Nat}
+    (hi : ZInv s) (hp : phaseOf s t = .waiting c cs dur start dl) :
+    PhOk s.now (.woken c cs dur start false) := by
+  have := hi.ph t
+  rw [hp] at this
+  cases c with
+  | popTimeout T =>
+    simp only [PhOk] at this ⊢
+    exact ⟨this.2.1, this.2.2.1, this.2.2.2.1, this.2.2.2.2.1, this.2.2.2.2.2, fun h => by cases h⟩
+  | pop => trivial
+  | tryPop => trivial
+
+theorem zinv_notify {s : State} {w : Option Nat} {q : List Item} {pu : List Nat} {tp : Nat}
+    (hi : ZInv s) :
+    ZInv (applyNotify { s with queue := q, pushed := pu, tokensPushed := tp } w) := by
+  have hi0 : ZInv { s with queue := q, pushed := pu, tokensPushed := tp } := ⟨hi.ph, hi.log⟩
+  cases w with
+  | none => exact hi0
+  | some t =>
+    simp only [applyNotify]
+    split
+    · next c cs dur start dl heq =>
+      have heq' : phaseOf s t = .waiting c cs dur start dl := heq
+      exact zinv_update hi rfl rfl (zinv_to_woken hi heq') hi.log
+    · exact hi0
+
+theorem zinv_step (s : State) (l : Label) (s' : State) (hi : ZInv s)
+    (h : stepZL s l = some s') : ZInv s' := by
+  obtain ⟨h, htick⟩ := stepZL_step h
+  cases l with
+  | call t c =>
+    simp only [step] at h
+    split at h
+    · simp only [Option.some.injEq] at h; subst h
+      refine zinv_update hi rfl rfl ?_ hi.log
+      cases c with
+      | popTimeout T => exact ⟨rfl, rfl, rfl⟩
+      | pop => trivial
+      | tryPop => trivial
+    · cases h
+  | look t =>
+    simp only [step] at h
+    split at h
+    · next c cs dur e hp =>
+      simp only [Option.some.injEq] at h; subst h
+      apply zinv_lookReady hi
+      have := hi.ph t
+      rw [hp] at this
+      cases c with
+      | popTimeout T =>
+        simp only [PhOk] at this
+        obtain ⟨h1, h2, h3⟩ := this
+        subst h1 h2 h3
+        simp only [LookPre]
+        refine ⟨Nat.le_refl _, fun _ => ⟨by omega, fun h => h⟩, fun h => by cases h⟩
+      | pop => trivial
+      | tryPop => trivial
+    · next c cs dur start to hp =>
+      simp only [Option.some.injEq] at h; subst h
+      apply zinv_lookReady hi
+      have := hi.ph t
+      rw [hp] at this
+      cases c with
+      | popTimeout T =>
+        simp only [PhOk] at this
+        obtain ⟨h1, h2, h3, h4, h5, h6⟩ := this
+        simp only [LookPre, Bool.or_eq_false_iff, Bool.or_eq_true, decide_eq_false_iff_not,
+          decide_eq_true_eq]
+        have hs : 0 < slackNs := by decide
+        refine ⟨by omega, ?_, ?_⟩
+        · intro ⟨_, hd⟩
+          refine ⟨by omega, fun _ => by omega⟩
+        · intro he hT
+          have h5' := h5 hT
+          rcases he with he | he
+          · have := h6 he
+            omega
+          · omega
+      | pop => trivial
+      | tryPop => trivial
+    · cases h
+  | push v woke =>
+    simp only [step] at h
+    split at h
+    · simp only [Option.some.injEq] at h; subst h
+      exact zinv_notify (tp := s.tokensPushed) hi
+    · cases h
+  | unblock woke =>
+    simp only [step] at h
+    split at h
+    · simp only [Option.some.injEq] at h; subst h
+      exact zinv_notify (pu := s.pushed) hi
+    · cases h
+  | wake t r =>
+    simp only [step] at h
+    split at h
+    · next c cs dur start dl hp =>
+      split at h
+      · simp only [Option.some.injEq] at h; subst h
+        exact zinv_update hi rfl rfl (zinv_to_woken hi hp) hi.log
+      · split at h
+        · next d =>
+          split at h
+          · next hd =>
+            simp only [Option.some.injEq] at h; subst h
+            refine zinv_update hi rfl rfl ?_ hi.log
+            have := hi.ph t
+            rw [hp] at this
+            cases c with
+            | popTimeout T =>
+              simp only [PhOk, Option.some.injEq] at this ⊢
+              obtain ⟨h1, h2, h3, h4, h5, h6⟩ := this
+              exact ⟨h2, h3, h4, h5, h6, fun _ => by omega⟩
+            | pop => trivial
+            | tryPop => trivial
+          · cases h
+        · cases h
+    · cases h
+  | tick d =>
+    have hk := htick d rfl
+    simp only [step, Option.some.injEq] at h; subst h
+    refine ⟨?_, hi.log⟩
+    intro u
+    have hu := hi.ph u
+    obtain ⟨hr, hdl⟩ := tickOk_spec hk u
+    change PhOk (s.now + d) (phaseOf s u)
+    cases hp : phaseOf s u with
+    | idle => trivial
+    | ready => rw [hp] at hr; cases hr
+    | woken => rw [hp] at hr; cases hr
+    | waiting c cs dur start dl =>
+      rw [hp] at hu hdl
+      cases c with
+      | popTimeout T =>
+        simp only [PhOk] at hu ⊢
+        obtain ⟨h1, h2, h3, h4, h5, h6⟩ := hu
+        have := hdl _ (by simp only [deadlineOf]; exact h1)
+        exact ⟨h1, h2, by omega, this, h5, h6⟩
+      | pop => trivial
+      | tryPop => trivial
+
+theorem zinv_init : ZInv {} := by
+  refine ⟨?_, ?_⟩
+  · intro u
+    have : phaseOf {} u = Phase.idle := by simp [phaseOf]
+    rw [this]; trivial
+  · intro r hr; cases hr
+
+theorem recv_timeout_bounds_inv (ls : List Label) (s : State) (h : runZL {} ls = some s) :
+    ∀ r ∈ s.log, RecOk r :=
+  (runZL_inv zinv_step ls _ _ zinv_init h).log
+
 end TH.Lts.Queue
